@@ -255,7 +255,7 @@ TruncateOutcomes(b) ==
     IF TipsOf(b) = {} THEN {[res |-> "ok", b |-> b]}
     ELSE UNION {
            LET C == CutCandidates(b, tip, TruncDepth) IN
-           IF C = {} THEN {[res |-> "error", b |-> b]}
+           IF C = {} THEN {[res |-> "ok", b |-> b]}     \* fewer ancestors than the depth: nothing to move
            ELSE {[res |-> "ok", b |-> TruncateTo(b, c)] : c \in C}
          : tip \in TipsOf(b)}
 
